@@ -11,6 +11,7 @@ import gen
 import mockca
 import vlib
 from ext import csrreq
+from ext import iptext
 
 FINISH = dict(
     level="proof",
@@ -22,8 +23,9 @@ FINISH = dict(
         "against the mock CA; vhelper's DER parsing of the CSR (SANs, subject, signature algorithm, "
         "self-signature, public key) with OpenSSL; Python's punycode codec and ipaddress module for the "
         "expected normal forms",
-        "modelled, not verified: ASN.1 encoding of the CSR (OpenSSL), IpAddr parsing/printing and Unicode "
-        "lower-casing (parameters of the model)",
+        "modelled, not verified: ASN.1 encoding of the CSR (OpenSSL), Unicode lower-casing (parameter of the "
+        "model); IpAddr parsing/printing is Model.IpText (Rust's core::net parser and Display, transliterated), tied "
+        "to the real Identifier::new by correspondence on generated spellings (py/ext/iptext.py)",
     ],
     rule="(i) names: generated DNS names (plain, wildcard, IDN, mixed case, 1..5 labels, labels up to 70 "
          "characters) and IP addresses in accepted textual forms through the real Identifier::new, compared "
@@ -36,7 +38,12 @@ FINISH = dict(
          "(0..4 of the 15 subject attributes with UTF-8 / blank-containing values, csr_digest sha256/384/512/absent, "
          "all 7 key types, stored keys of another type than key_type under kp_reuse); signature algorithm, subject "
          "multiset, SAN multisets and key type of every observed CSR compared with Model.CsrReq.finalizeCsr "
-         "(driver op csr_expect).",
+         "(driver op csr_expect). (iv) py/ext/iptext.py: IP spellings (random addresses biased to zero runs, IPv4-mapped / "
+         "-compatible prefixes; every legal spelling choice: case, leading zeros, '::' for any zero run, embedded IPv4 "
+         "tail; 30 kinds of near-miss texts) through the real Identifier::new and Model.IpText (accept/refuse and "
+         "canonical text compared; Spec.C01Ip.holds = 'the value is the canonical RFC 5952 text of the configured "
+         "address' judged on the code's output); the IP identifiers of the flows (newOrder value, CSR octets) judged by "
+         "Spec.C01Ip.holds / holdsOctets. non-trivial there = an accepted spelling that is not already canonical.",
 )
 
 ATTRS = {  # configuration key -> OpenSSL short name (independent of the code under test)
@@ -243,6 +250,7 @@ def flows_part(ctx, helper, root):
             ctx.broke("harness", "issuance failed against a conforming CA: %s" % r.get("status"), {"sc": sc})
     ctx.traces += len(keep)
     csrreq.extend(ctx, vlib.model, keep)
+    iptext.extend_flows(ctx, vlib.model, keep)
     if keep:
         ctx.sample({"configured": [i["raw"] for i in keep[0]["sc"]["ids"]], "order": j1[0]["order"],
                     "csr_dns": j1[0]["csr_dns"], "csr_ips": j1[0]["csr_ips"], "sig_alg": j2[0]["sig_alg"]})
@@ -261,6 +269,7 @@ def run(ctx):
     shutil.rmtree(root, ignore_errors=True)
     try:
         names_part(ctx)
+        iptext.extend(ctx)
         flows_part(ctx, helper, root)
     finally:
         helper.close()
@@ -281,6 +290,8 @@ def replay(ctx):
         m = vlib.model([obj])[0]
         print("impl", i, "model", m)
         return 0 if i == m else 1
+    if obj.get("kind") == "iptext":
+        return iptext.replay(obj)
     if obj.get("op") == "ident":
         print(vlib.probe([obj])[0])
         return 1
@@ -290,6 +301,7 @@ def replay(ctx):
     res = run_cert(dict(obj["sc"], idx=0), root, helper)
     print({k: v for k, v in res.items() if k != "sc"})
     csrreq.extend(ctx, vlib.model, [res])
+    iptext.extend_flows(ctx, vlib.model, [res])
     for what, detail, _ in ctx.broken:
         print(what, detail)
     helper.close()
